@@ -226,6 +226,9 @@ def build(active_known=frozenset()):
     pack.assume("under contract: StreamReader, _with_loc (span tagging), _read_reader_macro (dispatch branch), the prefix readers (quote, deref, unquote, syntax-quote, "
                 "metadata, #_), _read_comment, _consume_whitespace, _read_reader_conditional_macro, _read_coll; NOT under contract: the map / number / string / symbol / "
                 "keyword / character / regex / reader-conditional readers, read() itself, totality and 'SyntaxError only' for the reader as a whole")
+    pack.assume("_read_num: the pushback that directly follows next_char is assumed not to be refused; int()/float()/Decimal() applied to the groups of the number patterns "
+                "parse (trusted from the patterns, which are not interpreted); only the truth of a pattern match and the string-ness of its groups are modelled")
+    pack.assume("_read_set: the construction of the 'duplicated values' error message (a filtered generator expression over collections.Counter) is not modelled")
     pack.assume("_read_unicode_escape_seq: the single pushback it performs is assumed not to be refused (window of at least three characters, none pushed back on entry)")
     pack.assume("_read_next_consuming_comment, the readers behind the # dispatch table and the function decorated by _with_loc are used by contract (induction over the "
                 "nesting depth): they move the cursor forward, keep the stream reader well-formed, return a form (the eof value exactly when nothing but whitespace and "
@@ -686,8 +689,9 @@ def add_prefix_readers(pack):
         p0 = pos(a.pre.st, r)
         located = z3.And(V.is_ref(form), z3.Or(*[V.cls_of(V.Val.a(form)) == a.eng.class_id(fc) for fc in (FORM_CLASSES[0], FORM_CLASSES[2], FORM_CLASSES[3])]),
                          z3.Not(V.is_none(META_OF(form))), z3.Not(V.is_none(VAL_AT(META_OF(form), a.eng.lift(rd.READER_COL_KW, st)))))
+        cond = CH(p0 + 1) == V.mk_str("?")
         if "loc_assoc_args" not in g:
-            return z3.And(z3.Not(located), a.result == form, g["dispatch_at"] == p0 + 1)
+            return z3.And(z3.Or(cond, z3.Not(located)), a.result == form, g["dispatch_at"] == p0 + 1)
         args = g["loc_assoc_args"]
         if len(args) != 5:
             return z3.BoolVal(False)
@@ -696,10 +700,11 @@ def add_prefix_readers(pack):
         cl = pairs.get(str(z3.simplify(a.eng.lift(rd.READER_COL_KW, st))))
         if ln is None or cl is None:
             return z3.BoolVal(False)
-        return z3.And(located, args[0] == META_OF(form), ln == V.mk_int(LINE(p0)), cl == V.mk_int(COL(p0)), g.get("loc_with_meta_self", V.VNone) == form)
+        return z3.And(z3.Not(cond), located, args[0] == META_OF(form), ln == V.mk_int(LINE(p0)), cl == V.mk_int(COL(p0)), g.get("loc_with_meta_self", V.VNone) == form)
 
     c.ensures("a form read through the # dispatch table that carries a location starts, according to its tag, at the # itself (so that the tagged span "
-              "re-reads as the same form); a form without location is returned as it is", macro_post)
+              "re-reads as the same form); the branch selected by a reader conditional #?(...) keeps the span of its own text, and a form without "
+              "location is returned as it is", macro_post)
     c.replay(lambda m, ctx, ob: LOC_REPLAY)
     c.replay_without_model = True
 
@@ -1368,6 +1373,242 @@ def add_prefix_readers(pack):
     c.replay(lambda m, ctx, ob: STRLIT_REPLAY)
     c.replay_without_model = True
 
+    # ---- numbers: whatever digits, signs, letters and dots follow, reading a number ends in a number, a symbol or a syntax error
+    import re as _re
+    import decimal as _dec
+    import fractions as _fr
+
+    class _Match:  # stand-in for re.Match
+        def group(self, i):
+            raise NotImplementedError
+
+        def groups(self):
+            raise NotImplementedError
+
+    def num_setup(eng, st):
+        psetup(eng, st)
+        eng.float_overflow = True  # int -> float conversion in mixed arithmetic raises OverflowError beyond the range of a double
+        eng.class_id(_Match)
+        NUMERIC_PATTERNS = (rd.integer_literal, rd.float_literal, rd.octal_literal, rd.hex_literal, rd.ratio_literal, rd.scientific_notation_literal,
+                            rd.arbitrary_base_literal, rd.complex_literal)
+
+        def fullmatch(e, s, a, k):
+            # trusted: a number pattern matches the whole token or it does not; its groups are strings
+            pat = a[0]
+            if isinstance(pat, SV):
+                ok_, obj_ = e.unlift_const(pat.t)
+                pat = obj_ if ok_ else pat
+            if not any(pat is p_ for p_ in NUMERIC_PATTERNS):
+                raise Unsupported("fullmatch of a pattern other than the number patterns")
+            s2 = s.copy()
+            m_ = e.alloc(s, _Match)
+            s.ghost["matched"] = pat
+            yield s, m_
+            yield s2, None
+
+        eng.method_models[(_re.Pattern, "fullmatch")] = Model("<number pattern>.fullmatch (a match object or None)", fullmatch)
+        eng.method_models[(_Match, "group")] = Model("Match.group (a string)", lambda e, s, a, k: iter([(s, SV(V.mk_str(z3.String(V.fresh_name("group")))))]))
+
+        def groups(e, s, a, k):
+            if s.ghost.get("matched") is not rd.ratio_literal:
+                raise Unsupported("Match.groups of a pattern other than ratio_literal")
+            yield s, (SV(V.mk_str(z3.String(V.fresh_name("num")))), SV(V.mk_str(z3.String(V.fresh_name("den")))))
+
+        eng.method_models[(_Match, "groups")] = Model("Match.groups (two strings for ratio_literal)", groups)
+
+        def int_(e, s, a, k):
+            # trusted, from the patterns: the groups handed to int(x) / int(x, base=8|16) are digit strings of that base and always
+            # parse; only the digits of an arbitrary-base literal (base read from the text) may be invalid for the base
+            n = z3.Int(V.fresh_name("parsed_int"))
+            base = k.get("base")
+            if base is None or base in (8, 16):
+                if s.ghost.get("matched") in (rd.octal_literal, rd.hex_literal) or (s.ghost.get("matched") is rd.ratio_literal and s.ghost.get("ratio_ints", 0) >= 1) \
+                        or (s.ghost.get("matched") is rd.arbitrary_base_literal and base is None):
+                    s.assume(n >= 0)  # (these groups carry no sign)
+                if s.ghost.get("matched") is rd.ratio_literal:
+                    s.ghost["ratio_ints"] = s.ghost.get("ratio_ints", 0) + 1
+                yield s, SV(V.mk_int(n))
+                return
+            s2 = s.copy()
+            s.assume(n >= 0)
+            yield s, SV(V.mk_int(n))
+            yield s2, Raise(Exc(ValueError, ("invalid literal for int() with this base",), note="digits that are not digits of the base"))
+
+        eng.models[id(_bi.int)] = Model("int(<digits>[, base]) (trusted from the number patterns)", int_)
+        eng.models[id(_bi.float)] = Model("float(<digits[.digits]>) (always parses; out of range gives inf)", lambda e, s, a, k: iter([(s, SV(V.Val.flt(z3.Int(V.fresh_name("parsed_float")))))]))
+
+        def decimal_(e, s, a, k):
+            s2 = s.copy()
+            yield s, SV(V.Val.dec(z3.Int(V.fresh_name("parsed_decimal"))))
+            if s2.ghost.get("matched") is rd.float_literal:
+                yield s2, Raise(Exc(_dec.InvalidOperation, ("bad decimal",), note="(the code guards this call)"))
+
+        eng.models[id(_dec.Decimal)] = Model("decimal.Decimal(<text of a number pattern>)", decimal_)
+        eng.models[id(_bi.complex)] = Model("complex(0, x)", lambda e, s, a, k: iter([(s, SV(V.Val.cplx(z3.Int(V.fresh_name("imaginary")))))]))
+
+        def join_any(e, s, a, k):
+            yield s, SV(V.mk_str(z3.String(V.fresh_name("token"))))
+
+        eng.method_models[(str, "join")] = Model("''.join(chars) (some string)", join_any)
+
+        def read_sym(e, s, a, k):
+            s2 = s.copy()
+            r = V.fresh_val("symbol_read")
+            s.assume(e.external_ref_fact(s, r))
+            yield s, SV(r)
+            yield s2, Raise(Exc(rd.SyntaxError, ("syntax error",), note="raised by _read_sym"))
+
+        eng.models[id(rd._read_sym)] = Model("_read_sym (by contract: a form or a syntax error)", read_sym)
+
+        def pushback(e, s, a, k):
+            # by the contract of pushback (proved above): one character back, or IndexError with nothing changed.  Assumed here: the
+            # first pushback of this function, which directly follows a next_char that moved, is not refused (window of two or more)
+            r = e.lift(a[0], s)
+            p = pos(s, r)
+            first = s.ghost.get("pushbacks", 0) == 0
+            s.ghost["pushbacks"] = s.ghost.get("pushbacks", 0) + 1
+            s2 = s.copy()
+            e.havoc_heap(s, ["_idx"])
+            s.assume(WF(e, s, r), pos(s, r) == p - 1)
+            yield s, None
+            if not first:
+                yield s2, Raise(Exc(IndexError, ("Exceeded pushback depth",), note="the pushback window is exhausted"))
+
+        eng.method_models[(SR, "pushback")] = Model("StreamReader.pushback (by contract; the first one is assumed to be accepted)", pushback)
+
+    c = pack.contract("basilisp.lang.reader:_read_num")
+    c.param("ctx", OBJ(RC))
+    c.setup(num_setup)
+    c.requires("the stream reader is well-formed and stands on a digit or a minus sign",
+               lambda a: z3.And(WF(a.eng, a.pre.st, reader_of(a)), z3.Or(*[CH(pos(a.pre.st, reader_of(a))) == V.mk_str(ch) for ch in "0123456789-"])))
+    c.raises(rd.SyntaxError)
+
+    def num_inv(ctx):
+        st, pre = ctx.st, ctx.entry.st
+        r = fld(pre, ctx["ctx"], "_reader")
+        return [("the stream reader stays well-formed and is still the context's reader", z3.And(WF(ctx.eng, st, r), fld(st, ctx["ctx"], "_reader") == r, ctx["reader"] == r)),
+                ("chars is this call's own list", z3.And(V.is_ref(ctx["chars"]), V.Val.a(ctx["chars"]) > 0)),
+                ("a character has been collected, or the cursor still stands where the call began", z3.Or(z3.Length(z3.Select(st.lists, V.Val.a(ctx["chars"]))) > 0, pos(st, r) == pos(pre, r)))]
+
+    def num_inv_pushback(ctx):
+        st, pre = ctx.st, ctx.entry.st
+        r = fld(pre, ctx["ctx"], "_reader")
+        return [("the stream reader stays well-formed and is still the context's reader", z3.And(WF(ctx.eng, st, r), fld(st, ctx["ctx"], "_reader") == r, ctx["reader"] == r))]
+
+    c.loop(0, invariant=num_inv, frame=["_idx"], lists=True, ghost=("n_read",), aux=("dqv", "dqn"))
+    c.loop(1, invariant=num_inv_pushback, frame=["_idx"], lists=True, ghost=("n_read",), aux=("dqv", "dqn"))
+    c.ensures("", lambda a: z3.BoolVal(True))
+    c.replay(lambda m, ctx, ob: NUM_REPLAY)
+    c.replay_without_model = True
+
+    # ---- #{...}: the elements are arbitrary reader forms, and those made by #py (lists, dicts, sets) are not hashable.  _read_coll
+    #      is used by its contract, which *assumes* that the constructor handed to it raises nothing but syntax errors: here the
+    #      constructor of sets, a local function of _read_set, is checked against that assumption.
+    import builtins as _bi
+    import collections as _coll
+    from basilisp.lang import set as lset_
+
+    HASHABLE = z3.Function("is_hashable", V.Val, z3.BoolSort())
+
+    class _PySet:  # stand-in for the class of the value of set(<list>)
+        def __len__(self):
+            raise NotImplementedError
+
+    class _Counter:  # stand-in for collections.Counter
+        def items(self):
+            raise NotImplementedError
+
+    def set_setup(eng, st):
+        psetup(eng, st)
+        eng.class_id(_Counter)
+        eng.opaque_message_genexprs = True
+        eng.class_id(_PySet)
+
+        def read_coll(e, s, a, k):
+            # by contract (proved above): the constructor is applied to a list of the elements read, unless a syntax error came first
+            s2 = s.copy()
+            elems = z3.Const(V.fresh_name("elements_read"), V.ValSeq)
+            lst_ = e.alloc(s, list)
+            s.lists = z3.Store(s.lists, V.Val.a(lst_.t), elems)
+            s.ghost["elements_read"] = elems
+            yield from e.call(a[1], [lst_], {}, s)
+            yield s2, Raise(Exc(rd.SyntaxError, ("syntax error",), note="raised by _read_coll itself or by an element's reader"))
+
+        eng.models[id(rd._read_coll)] = Model("_read_coll (by contract: applies the constructor to the list of elements read)", read_coll)
+
+        def py_set(e, s, a, k):
+            # trusted: set(iterable) hashes every item - TypeError exactly when one of them is not hashable
+            L = z3.Select(s.lists, V.Val.a(e.lift(a[0], s)))
+            i = z3.Int("i")
+            s2 = s.copy()
+            s.assume(z3.ForAll([i], z3.Implies(z3.And(i >= 0, i < z3.Length(L)), HASHABLE(L[i]))))
+            r = e.alloc(s, _PySet)
+            s.ghost["py_set"] = (r.t, L)
+            yield s, r
+            w = z3.Int(V.fresh_name("unhashable_at"))
+            s2.assume(w >= 0, w < z3.Length(L), z3.Not(HASHABLE(L[w])))
+            yield s2, Raise(Exc(TypeError, ("unhashable type",), note="set() over a list holding a value that is not hashable"))
+
+        eng.models[id(_bi.set)] = Model("set(<list>) (trusted: TypeError exactly when an item is not hashable)", py_set)
+
+        def set_len(e, s, a, k):
+            n = z3.Int(V.fresh_name("distinct"))
+            s.assume(n >= 0, n <= z3.Length(s.ghost["py_set"][1]))
+            yield s, SV(V.mk_int(n))
+
+        eng.method_models[(_PySet, "__len__")] = Model("len(<set>) (at most the number of items)", set_len)
+        eng.models[id(_coll.Counter)] = Model("collections.Counter (only feeds the error message)", lambda e, s, a, k: iter([(s, e.alloc(s, _Counter))]))
+        eng.method_models[(_Counter, "items")] = Model("Counter.items (only feeds the error message)", lambda e, s, a, k: iter([(s, SV(V.fresh_val("counter_items")))]))
+        eng.method_models[(str, "join")] = Model("str.join (only feeds the error message)", lambda e, s, a, k: iter([(s, SV(V.mk_str(z3.String(V.fresh_name("joined")))))]))
+
+        def lisp_set(e, s, a, k):
+            # trusted: basilisp.lang.set.set over hashable members builds a set and raises nothing
+            yield s, e.alloc(s, lset_.PersistentSet)
+
+        eng.models[id(lset_.set)] = Model("basilisp.lang.set.set (trusted: raises nothing on hashable members)", lisp_set)
+
+    c = pack.contract("basilisp.lang.reader:_read_set")
+    c.param("ctx", OBJ(RC))
+    c.setup(set_setup)
+    c.requires("the stream reader is well-formed and stands on the { of #{", lambda a: z3.And(WF(a.eng, a.pre.st, reader_of(a)), CH(pos(a.pre.st, reader_of(a))) == V.mk_str("{")))
+    c.raises(rd.SyntaxError)
+    c.ensures("", lambda a: z3.BoolVal(True))
+    c.replay(lambda m, ctx, ob: STRLIT_REPLAY)
+    c.replay_without_model = True
+
+    # ---- #queue: the form after the tag is arbitrary reader data (a number, nil, a symbol ...), not necessarily a collection
+    from basilisp.lang import symbol as sym_
+    import pyrsistent as _pyr
+
+    ITERABLE = z3.Function("is_iterable", V.Val, z3.BoolSort())
+
+    def queue_setup(eng, st):
+        def pdeque_any(e, s, a, k):
+            # trusted: pdeque(iterable=x) iterates x - TypeError exactly when x is not iterable
+            src = e.lift(k.get("iterable", a[0] if a else ()), s)
+            s2 = s.copy()
+            s.assume(ITERABLE(src))
+            r = e.alloc(s, eng.libcls["PDeque"])
+            yield s, r
+            s2.assume(z3.Not(ITERABLE(src)))
+            yield s2, Raise(Exc(TypeError, ("object is not iterable",), note="pdeque over a form that is not iterable"))
+
+        eng.closed_world_classes = True  # (only the error message looks at the class of the form)
+        eng.models[id(_pyr.pdeque)] = Model("pdeque(iterable=<any value>) (trusted: TypeError exactly when the value is not iterable)", pdeque_any)
+
+    queue_reader = rd.ReaderContext._DATA_READERS[sym_.symbol("queue")]
+    c = pack.contract(f"{queue_reader.__module__}:{queue_reader.__qualname__}")
+    c.label = "as the #queue data reader"
+    c.setup(queue_setup)
+    import inspect as _inspect
+
+    qp = next(iter(_inspect.signature(queue_reader).parameters))  # the parameter that receives the tagged form
+    c.requires("(numbers, nil and booleans are not iterable)",
+               lambda a: (lambda x: z3.Implies(z3.Or(V.is_int(x), V.is_none(x), V.is_bool(x), V.is_flt(x)), z3.Not(ITERABLE(x))))(getattr(a, qp)))
+    c.raises(rd.SyntaxError)
+    c.ensures("", lambda a: z3.BoolVal(True))
+    c.replay(lambda m, ctx, ob: STRLIT_REPLAY)
+    c.replay_without_model = True
 
     # ---- byte strings: #b "..." - malformed and incomplete are told apart by whether the text has ended
     def bytes_setup(eng, st):
@@ -1555,6 +1796,23 @@ def add_prefix_readers(pack):
     c.replay_without_model = True
 
 
+NUM_REPLAY = r'''
+from basilisp.lang import reader
+bad = []
+for text in ["1.5e999", "-2.5E400", "1.0e309", "1e5", "1.5e3", "1.5e-999", "2e-3", "1e400", "12", "-7N", "1.5", "1.5M", "017", "0x1F", "1/2", "4/2", "0/5", "1/0", "2r101", "37r1", "2r2", "3J", "1.5J",
+             "1e5M", "1.5e999M", "12abc", "1..2", "1e", "-", "-a", "1-2"]:
+    try:
+        list(reader.read_str(text))
+    except reader.SyntaxError:
+        pass
+    except BaseException as e:
+        bad.append("%r: reading raised %s: %s" % (text, type(e).__name__, e))
+for line in bad[:10]:
+    print(line)
+print("REPRODUCED" if bad else "not reproduced")
+'''
+
+
 STRLIT_REPLAY = r'''
 from basilisp.lang import reader
 bad = []
@@ -1575,7 +1833,9 @@ for text, want in (('"abc', "incomplete"), ('"ab\\', "incomplete"), ('"ab\\u12',
                    ('#f "a{b c}"', "malformed"), ('#f "a{b}c"', "ok"), ('#f "a\\{b}"', "ok"), ('#f "{#_a b}"', "ok"),
                    ('#b', "incomplete"), ('#b ', "incomplete"), ('#b "ab', "incomplete"), ('#b "a\\', "incomplete"), ('#b "\\x', "incomplete"), ('#b "\\x4', "incomplete"),
                    ('#b "\\xzz"', "malformed"), ('#b "\u00e9"', "malformed"), ('#b 5', "malformed"), ('#b "a\\x41\\n"', "ok"),
-                   ("\\", "incomplete"), ("\\a", "ok"), ("\\newline", "ok"), ("#inst 5", "malformed"), ("#inst \"x\"", "malformed"), ("#inst \"2020-01-01T00:00:00Z\"", "ok")):
+                   ("\\", "incomplete"), ("\\a", "ok"), ("\\newline", "ok"), ("#inst 5", "malformed"), ("#inst \"x\"", "malformed"), ("#inst \"2020-01-01T00:00:00Z\"", "ok"),
+                   ("#{#py []}", "malformed"), ("#{#py {} 1}", "malformed"), ("#{1 #py #{2}}", "malformed"), ("#{#py (1)}", "ok"), ("#{1 2}", "ok"),
+                   ("#queue 1", "malformed"), ("#queue nil", "malformed"), ("#queue 1.5", "malformed"), ("#queue", "incomplete"), ("#queue (1 2)", "ok"), ("#queue [1]", "ok"), ("#queue ()", "ok")):
     got = kind(text)
     if got != want:
         bad.append("%r is %s, expected %s" % (text, got, want))
@@ -1711,7 +1971,8 @@ def true_loc(text, idx):
             col += 1
     return line, col
 cases = [("(a b)", 0, 5), ("  [1 2]", 2, 7), ("\n\n(x\n y)", 2, 8), ("a\r\n(q)", 3, 6), ("a\r(q)", 2, 5), ("{:a 1}  ", 0, 6), ("sym", 0, 3), ("  #{1}", 2, 6), (";c\n [z]", 4, 7),
-         ("#:a\n{:b c}", 0, 10), (" #:k\n  {:x 1}", 1, 13), ("#:a{:b 1}", 0, 9), ("\n #{1\n 2}", 2, 9)]
+         ("#:a\n{:b c}", 0, 10), (" #:k\n  {:x 1}", 1, 13), ("#:a{:b 1}", 0, 9), ("\n #{1\n 2}", 2, 9),
+         ("#?(:lpy [1 2])", 8, 13), ("  #?(:clj 3 :lpy (a b))", 17, 22), ("#?(:lpy #{1})", 8, 12), ("#?(:clj 1 :lpy sym)", 15, 18), ("#?(:default\n [x])", 13, 16)]
 for text, start, end in cases:
     forms = [f for f in reader.read_str(text) if hasattr(f, "meta") and f.meta is not None]
     form = forms[-1] if forms else None
